@@ -112,6 +112,30 @@ pub struct FnAbi {
     simple_ret: bool,
 }
 
+#[cfg(capy_verif)]
+impl FnAbi {
+    /// Verification hook (only with `--cfg capy_verif`): how the return value and each argument
+    /// (with its parameter index) travel, as plain text.
+    pub fn verif_describe(&self) -> (Option<String>, Vec<(u16, String)>) {
+        fn show(pass: &PassMode) -> String {
+            match pass {
+                PassMode::Cast { tys, .. } => format!(
+                    "cast:{}",
+                    tys.iter().map(|ty| ty.to_string()).collect::<Vec<_>>().join(",")
+                ),
+                PassMode::Direct(ty) => format!("direct:{ty}"),
+                PassMode::Indirect(Some(size)) => format!("indirect:{size}"),
+                PassMode::Indirect(None) => "indirect".to_string(),
+            }
+        }
+
+        (
+            self.ret.as_ref().map(show),
+            self.args.iter().map(|(pass, idx)| (*idx, show(pass))).collect(),
+        )
+    }
+}
+
 impl FnAbi {
     pub fn new() -> Self {
         Self {
